@@ -69,6 +69,10 @@ def compute_hash(node: TreeNode, hashes: EvictionCache, cache: EvictionCache):
 
 def validate_graph(inputs: TreeNodes, output: TreeNode):
     def visitor(node):
+        # each node is visited once, not once per path
+        if node in visited:
+            return
+        visited.add(node)
         # input doesn't need parents
         if node in inputs:
             return
@@ -78,21 +82,37 @@ def validate_graph(inputs: TreeNodes, output: TreeNode):
         for inp in node.parents:
             visitor(inp)
 
+    visited = set()
     visitor(output)
 
 
 def count_entries(inputs: TreeNodes, output: TreeNode, multiplier: int = 1):
     def visitor(node: TreeNode):
-        entry_counts[node] += multiplier
-        # input doesn't need parents
-        if node in inputs:
+        if node in visited:
             return
+        visited.add(node)
+        # input doesn't need parents
+        if node not in inputs:
+            for n in node.parents:
+                visitor(n)
 
-        for n in node.parents:
-            visitor(n)
+        order.append(node)
+
+    # the number of entries is `multiplier` times the number of paths from the output to the node
+    # we count them in a single pass: each node is processed after all the nodes that depend on it
+    order, visited = [], set()
+    visitor(output)
 
     entry_counts = defaultdict(int)
-    visitor(output)
+    entry_counts[output] = multiplier
+    for node in reversed(order):
+        if node in inputs:
+            continue
+
+        count = entry_counts[node]
+        for n in node.parents:
+            entry_counts[n] += count
+
     return dict(entry_counts)
 
 
